@@ -19,3 +19,8 @@ open XotModel.Props
 #print axioms C09_unresolved_element
 #print axioms C09_unresolved_real
 #print axioms C09_stack_invariant
+#print axioms C09_unresolved
+#print axioms C09_unresolved_needs
+#print axioms C09_unresolved_unique_needed
+#print axioms C09_inherited
+#print axioms C09_inherited_iff
